@@ -213,12 +213,40 @@ def work(part):
     return res
 
 
+def stability(ctx):
+    """second part: what the getters report does not change while the context is used - every getter dumped right after
+    the open and again after a history of validations, chunk requests, matching and a full read (the per-chunk validity
+    flag excepted), on library-written files"""
+    import universe
+    from universe import Cfg
+    D = universe.DELTA_DICT
+    specs_ = [("abc", Cfg(0, b"", 0, 3, 1)), ("aab", Cfg(2, b"", 0, 3, 1)), ("abca", Cfg(2, D, 0, 1, 1)), ("abb", Cfg(2, D, 1, 2, 0)), ("dcd", Cfg(0, D, 1, 1, 1))]
+    files = universe.lib_files(specs_, ctx.seed)
+    single = ["V", "D", "F", "Q", "C0", "C1", "C2", "S1", "S3", "r5", "X", "M"]
+    hists = ["-"] + single + ["%s,%s" % (a, b) for a in single for b in single]
+    bad = []
+    for (w, c), f in zip(specs_, files):
+        job = ["sched 7", "peer %s" % f.hex(), "disk %s" % f.hex()] + ["hist %s" % h for h in hists]
+        cs = core.drv("scan", "\n".join(job) + "\n", timeout=3000)
+        for h, cse in zip(hists, cs):
+            s = cse.first("S")
+            ctx.states += 1; ctx.evaluations += 1; ctx.transitions += h.count(",") + 2
+            if not cse.done or s is None:
+                ctx.violation({"check": "C13", "predicate": "crash-in-history"}, "%s:%s history %s: %s" % (w, c.name(), h, cse.status()), {"stability": True, "file": f.hex(), "hist": h})
+            elif s.get("metasame") == "0":
+                ctx.violation({"check": "C13", "predicate": "reported-metadata-changes-while-the-context-is-used", "first_op": h.split(",")[0][0]},
+                              "%s:%s: the getters report something else after history %s and a full read than right after the open" % (w, c.name(), h),
+                              {"stability": True, "file": f.hex(), "hist": h})
+    ctx.bounds["stability"] = "5 library-written files x all histories of length <= 2 over %s, then a full read" % single
+
+
 def run(ctx):
+    stability(ctx)
     sp = specs(ctx)
     ctx.rule = ("case = one sealed header (field tuple, mutation, padding); distinct by construction; non-trivial = header "
                 "with a size >= 2^31 or a re-sealed mutation")
-    ctx.bounds = {"headers": len(sp), "sizes": [str(b) for b in BIG], "mutations": "count, 10/11-byte ints, huge ints in every "
-                  "integer field, unknown flag bits", "padding": [1, 2, 8, 9, 10]}
+    ctx.bounds.update({"headers": len(sp), "sizes": [str(b) for b in BIG], "mutations": "count, 10/11-byte ints, huge ints in every "
+                  "integer field, unknown flag bits", "padding": [1, 2, 8, 9, 10]})
     parts = list(core.chunks(sp, 2000))
     for r in core.pmap(work, parts):
         ctx.states += r["n"]; ctx.evaluations += r["n"]; ctx.transitions += r["n"] + r["opened"] * 20
@@ -251,6 +279,11 @@ def dec(j):
 
 
 def replay(case, quiet=True):
+    if case.get("stability"):
+        f = bytes.fromhex(case["file"])
+        cs = core.drv("scan", "sched 7\npeer %s\ndisk %s\nhist %s\n" % (f.hex(), f.hex(), case["hist"]))
+        s = cs[0].first("S")
+        return {"violated": (not cs[0].done) or s is None or s.get("metasame") == "0"}
     spec = dec(case["spec"])
     r = work([spec])
     if not quiet:
